@@ -21,7 +21,8 @@ package main
 //	                                  line is written only up to cut bytes, the rest precedes the next op on that file
 //	      | (1 name newname)          rename (same inode)
 //	      | (2 name (line ...) cut)   truncate to 0 and write the lines (same inode)
-//	line  = (#stream len kind delayMs)  kind 2 = len empty lines (dropped by the pipeline); else rendered as {"stream":..,"id":N,"d":delay,"m":"x"|"S","p":"pad"}\n of
+//	line  = (#stream len kind delayMs)  kind 2 = len empty lines, kind 3 = one undecodable line of len bytes (both dropped by the
+//	                                  pipeline: In returns EventSeqIDError); else rendered as {"stream":..,"id":N,"d":delay,"m":"x"|"S","p":"pad"}\n of
 //	                                  exactly len bytes; ids number the lines of the case in order of appearance
 //	obs   = (run ...)   run = (status ((id offset) ...) ((fileident ((#stream off) ...)) ...))
 //	        status 0 = alive until killed, 1 = the helper died by itself, 2 = harness problem;
@@ -130,16 +131,28 @@ func lineHead(l lineSpec) string {
 }
 
 func minLen(l lineSpec) int {
-	if l.kind == 2 {
+	switch l.kind {
+	case 2:
 		return 1
+	case 3:
+		return 2
 	}
 	return len(lineHead(l)) + 3
 }
 
-// kind 2 = filler: len empty lines ("\n"), which the pipeline drops (checkInputBytes) — not lines of the property
+func isJunk(kind int) bool { return kind == 2 || kind == 3 }
+
+// kind 2 = filler: len empty lines ("\n"), which the pipeline drops (checkInputBytes); kind 3 = one line of len bytes
+// the json decoder rejects — not lines of the property
 func render(l lineSpec) ([]byte, bool) {
 	if l.kind == 2 {
 		return bytes.Repeat([]byte{'\n'}, l.length), l.length >= 1
+	}
+	if l.kind == 3 {
+		if l.length < 2 {
+			return nil, false
+		}
+		return append(bytes.Repeat([]byte{'!'}, l.length-1), '\n'), true
 	}
 	h := lineHead(l)
 	pad := l.length - len(h) - 3
@@ -170,7 +183,9 @@ type world struct {
 	bad    string
 }
 
-func (w *world) path(name int) string { return filepath.Join(w.dir, "watch", fmt.Sprintf("f%d.log", name)) }
+func (w *world) path(name int) string {
+	return filepath.Join(w.dir, "watch", fmt.Sprintf("f%d.log", name))
+}
 
 func appendBytes(path string, b []byte) error {
 	f, err := os.OpenFile(path, os.O_APPEND|os.O_CREATE|os.O_WRONLY, 0o644)
@@ -231,7 +246,7 @@ func (w *world) apply(o fileOp) []wline {
 				w.bad = fmt.Sprintf("line %d: length %d < %d", l.id, l.length, minLen(l))
 				return nil
 			}
-			if l.kind == 2 {
+			if isJunk(l.kind) {
 				buf = append(buf, b...)
 				pos += int64(len(b))
 				continue
@@ -361,7 +376,16 @@ var (
 
 func note(k string) { noteMu.Lock(); notes[k]++; noteMu.Unlock() }
 
-func runPhase(w *world, cfgS hx.Sx, run int, ph phase, snapPrev snapshot, truncatedDown map[int]bool) hx.Sx {
+// lower bound of the number of events in flight at a live truncation: lines of the old content that the output
+// received only after the parent had truncated the file (they were read before: the bytes are gone afterwards)
+type truncMark struct {
+	old    map[int]bool // ids of the complete lines the truncation removed
+	before map[int]bool // ids delivered when the truncation was applied
+}
+
+var inflightSeen sync.Map // case text -> []int (one entry per live truncation, in order)
+
+func runPhase(w *world, cfgS hx.Sx, run int, ph phase, snapPrev snapshot, truncatedDown map[int]bool, marks *[]truncMark) hx.Sx {
 	hc := decodeCfg(cfgS)
 	outPath := filepath.Join(w.dir, fmt.Sprintf("out%d.log", run))
 	exe, _ := os.Executable()
@@ -472,6 +496,18 @@ loop:
 		if liveIdx < len(ph.live) && ready {
 			lo := ph.live[liveIdx]
 			if lo.wait == 0 || (lo.wait == 2 && len(ds) >= 1) || (lo.wait == 1 && quiet()) {
+				if lo.op.op == 2 {
+					m := truncMark{old: map[int]bool{}, before: map[int]bool{}}
+					if f := w.byName[lo.op.name]; f != nil {
+						for _, l := range f.lines {
+							m.old[l.id] = true
+						}
+					}
+					for _, d := range ds {
+						m.before[d.id] = true
+					}
+					*marks = append(*marks, m)
+				}
 				for _, l := range w.apply(lo.op) {
 					expected[l.id] = true
 				}
@@ -623,7 +659,27 @@ func exec03(which int, cs hx.Sx) hx.Sx {
 		if w.bad != "" {
 			return hx.L(hx.L(hx.I(2), hx.L(), hx.L(hx.L(hx.I(-2), hx.L(hx.L(hx.S(w.bad), hx.I(0)))))))
 		}
-		r := hx.Items(runPhase(w, cfgS, k, ph, snapPrev, truncDown))
+		var marks []truncMark
+		r := hx.Items(runPhase(w, cfgS, k, ph, snapPrev, truncDown, &marks))
+		if len(marks) > 0 {
+			got := map[int]bool{}
+			for _, d := range hx.Items(r[1]) {
+				got[int(hx.Int(hx.Items(d)[0]))] = true
+			}
+			var ns []int
+			for _, m := range marks {
+				n := 0
+				for id := range m.old {
+					if got[id] && !m.before[id] {
+						n++
+					}
+				}
+				ns = append(ns, n)
+			}
+			prev, _ := inflightSeen.Load(hx.String(cs))
+			pv, _ := prev.([]int)
+			inflightSeen.Store(hx.String(cs), append(pv, ns...))
+		}
 		content, err := os.ReadFile(filepath.Join(w.dir, "offsets.yaml"))
 		snap := snapshot{}
 		if err == nil {
